@@ -176,13 +176,17 @@ func (r *RandomChoiceSelection) Select(pool UpstreamPool, _ *layer4.Connection) 
 	if k > len(pool) {
 		k = len(pool)
 	}
-	choices := make([]*Upstream, k)
-	for i, upstream := range pool {
+	// reservoir sampling of k of the available upstreams
+	choices := make([]*Upstream, 0, k)
+	var available int
+	for _, upstream := range pool {
 		if !upstream.available() {
 			continue
 		}
-		j := weakrand.Intn(i + 1)
-		if j < k {
+		available++
+		if len(choices) < k {
+			choices = append(choices, upstream)
+		} else if j := weakrand.Intn(available); j < k {
 			choices[j] = upstream
 		}
 	}
@@ -421,14 +425,20 @@ func leastConns(upstreams []*Upstream) *Upstream {
 		return nil
 	}
 	var best []*Upstream
-	var bestReqs int
+	bestReqs := -1
 	for _, upstream := range upstreams {
+		if upstream == nil {
+			continue
+		}
 		reqs := upstream.totalConns()
 		if reqs == 0 {
 			return upstream
 		}
-		if reqs <= bestReqs {
+		if bestReqs == -1 || reqs < bestReqs {
 			bestReqs = reqs
+			best = best[:0]
+		}
+		if reqs == bestReqs {
 			best = append(best, upstream)
 		}
 	}
